@@ -2,6 +2,21 @@
 """Regenerates MANIFEST.json from the table below (kept here so the manifest is always valid JSON)."""
 import json, subprocess
 CHECKS = {
+ "C06": ("exploration", "runtime monitor: reference nesting automaton + parse-tree isomorphism (GetRoot via reflection) + marker render",
+         "All symbol sequences over the 22-symbol block alphabet up to length 4 (quick) / 5 (thorough), over a reduced 9-symbol alphabet up to length 6 / 7, and PRNG well-nested templates of depth <= 40 with all their one-edit neighbours are parsed by the real code. Oracle: acceptance iff the reference stack automaton accepts; rejected templates render nothing; accepted trees are isomorphic to the reference tree; unique text markers render under exactly their enclosing blocks/clauses in two runs (conditions true/false, loops one-element/empty).",
+         "Comment/raw bodies are opaque; repeated or misordered clauses are accepted and their rendering not asserted.", "DESIGN.md 5/C06"),
+ "C07": ("exploration", "runtime monitor: planted-failure locator (the generator knows the byte offset of the single failing construct)",
+         "3e5 (quick) / 6e6 (thorough) PRNG templates with exactly one of 36 failing constructs planted at a known offset, nested 0..6 deep through every block kind/clause, preceded by multi-line tags and objects, parsed with 3 paths x 3 start lines through 4 entry points. Oracle: non-nil SourceError without output, Path() = parse path, LineNumber() = start + newlines before the construct, message names unknown tags/filters, Cause() reaches the wrapped error.",
+         "Errors inside included files are not located; unterminated blocks are planted at depth 0 only.", "DESIGN.md 5/C07"),
+ "C08": ("exploration", "runtime monitor: reference evaluator for lookups + assign-decomposition and whitespace-variant metamorphic checks",
+         "Exhaustive index grid (length 0..5 x index -7..7 and non-integer indices), 4e4 / 8e5 PRNG lookup chains over nested PRNG bindings (also in strict mode) against the reference evaluator; 4e4 / 8e5 pipelines vs their assign-decomposition and generated programs printed in 6 whitespace styles; arity+1 and unknown-filter errors for every registered filter.",
+         "Float indices, non-string map indices, size of a string as a property and printing of maps are not asserted.", "DESIGN.md 5/C08"),
+ "C13": ("exploration", "runtime monitor: weak/strong trim laws (metamorphic) over all 2^k hyphen subsets; source-level whitespace deletion via the frozen tokenizer",
+         "700 (quick) / 14000 (thorough) PRNG base templates with whitespace-rich text; up to 10 hyphen slots chosen per base and all 2^k subsets rendered (6e5 / 1.2e7 renders). Weak law for every subset; strong law (equality with the hyphen-free template whose adjacent whitespace was deleted at source level) for subsets whose hyphens all face literal text.",
+         "Captured/assigned text is only printed; strong law not asserted for hyphens facing tags, objects or raw/comment bodies.", "DESIGN.md 5/C13"),
+ "C14": ("exploration", "runtime monitor: include graphs on real temporary directories + cache vs inlining reference model; presence states enumerated per file",
+         "2e4 (quick) / 4e5 (thorough) PRNG acyclic include graphs (depth <= 4) written under .work/, each file disk-only / cache-only / both (disk wins) / missing, arguments as literal, variable and filtered expression, top-level parsed with absolute, relative and no path; compared with the reference model inlining the graph; missing files, non-string arguments, failing included templates, directories and paths through files must give a SourceError.",
+         "Resolution is relative to the top-level parse path at every depth; leak-back of assignments from included files not asserted.", "DESIGN.md 5/C14"),
  "C09": ("exploration", "runtime monitor: exhaustive operand-pair matrix with reference comparison + operator coherence laws",
          "All ordered pairs of the ~85-value boundary universe (every kind, numeric widths incl. unsigned, typed/generic arrays, maps, structs, ordered maps, Drops, pointers), each also re-realised in 4 (quick) / 16 (thorough) PRNG Go representations, are pushed through ==, !=, <, >, <=, >=, contains, and/or in object and tag form and in both operand orders. Oracle: the reference value where the statement defines one, the coherence laws for all pairs, no operator fails; 1e5 / 2e6 PRNG and/or combinations against the model.",
          "Values of pairs the statement leaves open (|int|>2^53 vs float, ordering of booleans/arrays/maps, distinct equal maps) are only checked through the laws.", "DESIGN.md 5/C09"),
